@@ -67,7 +67,18 @@ type C18Case struct {
 	Rounds     [][]C18Write `json:"rounds"`   // round 0 = data present at the first run
 	FailRound  int          `json:"failRound,omitempty"`
 	FailReq    int          `json:"failReq,omitempty"` // sink answers 400 to this request of the first catch-up run of FailRound
+	InRun      *C18InRun    `json:"inRun,omitempty"`
 	Tags       []string     `json:"tags"`
+}
+
+// C18InRun: one write performed WHILE the first run after the writes of round
+// Round is in progress, right after the Hit-th batch of that run was handed to
+// the sink (hook points pipeline.incr.afterSink / pipeline.full.afterSink).
+type C18InRun struct {
+	Round int      `json:"round"`
+	Full  bool     `json:"full,omitempty"` // that run is an explicit fullsync run (round >= 1)
+	Hit   int      `json:"hit"`
+	Write C18Write `json:"write"`
 }
 
 // ---------- model side: effective dependencies and the required set
@@ -265,6 +276,17 @@ type c18Run struct {
 	reqs0        map[int]int       // sink requests of the first run of each round
 	cov0         map[string]int    // feed entries covered by each dependency token after the first run of the round
 	hasTransform bool
+
+	hits0 map[int]int // pipeline afterSink hook hits of the first run of each round
+	// write during a run (per round)
+	inrunDone    bool
+	inrunErr     error
+	inrunPos     int                        // accepted sink requests of that run before the write
+	inrunCommit  int                        // model commit of the write (0 = stored nothing new)
+	inrunChanged map[string]map[string]bool // dataset -> ids that got a new version by it
+	emittedAfter map[string]bool            // main ids delivered (accepted requests) after the write
+	emittedPre   map[string]bool            // main ids delivered in this round before the write
+	inrunClass   string
 }
 
 func (s *c18Run) viol(class, msg string, exp, got any, extra map[string]any) {
@@ -342,6 +364,8 @@ func (s *c18Run) token() (string, c18Tokens) {
 }
 
 type c18Outcome struct {
+	bodies  [][]obs.Rec // entities per accepted request, in order
+	hits    int         // pipeline afterSink hook hits
 	hung    string
 	err     string
 	found   bool
@@ -372,8 +396,11 @@ func (s *c18Run) runOnce(full bool, failAt int) c18Outcome {
 	for _, b := range l.bodies {
 		o.emitted = append(o.emitted, b...)
 	}
+	o.bodies = l.bodies
 	o.reqs, o.served = l.reqs, l.served400
 	l.mu.Unlock()
+	h := vh.Hits()
+	o.hits = int(h[c08PIncrS] + h[c08PFullS])
 	o.found, o.err, _ = s.env.sched.VerifC08LastRun(c18JobID)
 	s.ctx.Out.Stat("runs", 1)
 	s.ctx.Out.Stat("sink_requests", int64(o.reqs))
@@ -423,10 +450,18 @@ func (s *c18Run) checkTokens(when string) {
 func (s *c18Run) catchUp(first bool, prevCommit int) (map[string][]obs.Rec, bool) {
 	emitted := map[string][]obs.Rec{}
 	s.cov0 = map[string]int{}
+	s.inrunDone, s.inrunErr, s.inrunPos, s.inrunCommit, s.inrunClass = false, nil, 0, 0, ""
+	s.inrunChanged, s.emittedAfter, s.emittedPre = map[string]map[string]bool{}, map[string]bool{}, map[string]bool{}
 	for n := 0; n < c18MaxRuns; n++ {
 		before, _ := s.token()
 		covBefore := s.covered()
 		full := first && n == 0 && s.c.FirstRun == "full"
+		armed := false
+		if ir := s.c.InRun; ir != nil && ir.Round == s.round && n == 0 {
+			armed = true
+			full = full || ir.Full
+			s.armInRun(ir)
+		}
 		failAt := 0
 		if !first && n == 0 && s.c.FailRound == s.round {
 			failAt = s.c.FailReq
@@ -434,11 +469,39 @@ func (s *c18Run) catchUp(first bool, prevCommit int) (map[string][]obs.Rec, bool
 		s.ctx.Out.Begin(s.id, s.round*1000+n, fmt.Sprintf("round %d run %d full=%v failAt=%d", s.round, n, full, failAt))
 		o := s.runOnce(full, failAt)
 		s.ctx.Out.Ack(s.id, s.round*1000+n, nil)
+		if armed {
+			vh.Clear(c08PIncrS)
+			vh.Clear(c08PFullS)
+		}
 		if n == 0 {
 			s.reqs0[s.round] = o.reqs
+			s.hits0[s.round] = o.hits
 		}
 		for _, r := range o.emitted {
 			emitted[r.ID] = append(emitted[r.ID], r)
+		}
+		if s.inrunErr != nil {
+			s.ctx.Out.Inconclusive(s.id, "C18", "write during the run failed: "+s.inrunErr.Error())
+			s.abort = true
+			return emitted, false
+		}
+		if s.inrunDone {
+			for i, b := range o.bodies {
+				for _, r := range b {
+					if armed && i < s.inrunPos {
+						s.emittedPre[r.ID] = true
+					} else {
+						s.emittedAfter[r.ID] = true
+					}
+				}
+			}
+		} else {
+			for _, r := range o.emitted {
+				s.emittedPre[r.ID] = true
+			}
+			if armed {
+				s.ctx.Out.Stat("inrun_write_not_reached", 1)
+			}
 		}
 		if os.Getenv("C18_DEBUG") != "" {
 			var ids []string
@@ -469,6 +532,9 @@ func (s *c18Run) catchUp(first bool, prevCommit int) (map[string][]obs.Rec, bool
 		if n == 0 {
 			s.cov0 = s.covered()
 		}
+		if armed && s.inrunDone {
+			s.checkInRunToken(full)
+		}
 		after, _ := s.token()
 		if !o.found || o.err != "" {
 			if o.served > 0 {
@@ -479,6 +545,9 @@ func (s *c18Run) catchUp(first bool, prevCommit int) (map[string][]obs.Rec, bool
 			s.abort = true
 			return emitted, false
 		}
+		if armed && s.inrunDone {
+			continue // the graph changed while this run was going on: only a run that started afterwards can tell "caught up"
+		}
 		if after == before && !(first && n == 0) {
 			s.ctx.Out.StatMax("max:runs_to_fixpoint", int64(n+1))
 			return emitted, true
@@ -487,6 +556,166 @@ func (s *c18Run) catchUp(first bool, prevCommit int) (map[string][]obs.Rec, bool
 	s.ctx.Out.Inconclusive(s.id, "C18", "watchdog: tokens did not reach a fixpoint within the run budget")
 	s.abort = true
 	return emitted, false
+}
+
+// runKind names the kind of run a write happened in.
+func (s *c18Run) runKind() string {
+	ir := s.c.InRun
+	switch {
+	case ir == nil:
+		return ""
+	case ir.Round == 0 && s.c.FirstRun == "full":
+		return "first-run-fullsync"
+	case ir.Round == 0:
+		return "first-run-implicit-fullsync"
+	case ir.Full:
+		return "explicit-fullsync"
+	}
+	return "incremental"
+}
+
+// armInRun registers the write on both pipeline hook points: it is performed
+// by the job's own goroutine right after the Hit-th batch of this run was
+// accepted by the sink, i.e. between two batches. Deterministic, no sleeping.
+func (s *c18Run) armInRun(ir *C18InRun) {
+	cnt := 0
+	fn := func(string, int64) {
+		cnt++
+		if cnt != ir.Hit || s.inrunDone {
+			return
+		}
+		s.inrunDone = true
+		l := s.env.loop
+		l.mu.Lock()
+		s.inrunPos = len(l.bodies)
+		l.mu.Unlock()
+		s.ctx.Out.Begin(s.id, s.round*1000+800, fmt.Sprintf("write %s during the run, after batch %d", ir.Write.DS, ir.Hit))
+		err := StoreBatch(s.env.core, ir.Write.DS, ir.Write.Ents, false)
+		s.ctx.Out.Ack(s.id, s.round*1000+800, err)
+		if err != nil {
+			s.inrunErr = err
+			return
+		}
+		for _, idx := range s.m.Apply(ir.Write.DS, ir.Write.Ents) {
+			if s.inrunChanged[ir.Write.DS] == nil {
+				s.inrunChanged[ir.Write.DS] = map[string]bool{}
+			}
+			s.inrunChanged[ir.Write.DS][ir.Write.Ents[idx].ID] = true
+			s.inrunCommit = s.m.Commit
+		}
+		s.ctx.Out.Stat("inrun_writes", 1)
+		s.ctx.Out.Stat("inrun_writes:"+s.runKind(), 1)
+	}
+	vh.OnPoint(c08PIncrS, 0, fn)
+	vh.OnPoint(c08PFullS, 0, fn)
+}
+
+// inRunRequired: main entities connected NOW (the write was the last change of
+// the round) to an entity the in-run write changed, or changed by it themselves.
+func (s *c18Run) inRunRequired() map[string]c18Witness {
+	req := c18Required(s.m, s.eff, s.inrunChanged, nil, 0)
+	for id := range s.inrunChanged[c18Main] {
+		if _, ok := req[id]; !ok {
+			req[id] = c18Witness{Changed: id, Path: []string{id}}
+		}
+	}
+	return req
+}
+
+// onInRunPath: does the witness path contain an entity that the in-run write changed?
+func (s *c18Run) onInRunPath(w c18Witness) bool {
+	if !s.inrunDone {
+		return false
+	}
+	for _, id := range w.Path {
+		for _, ids := range s.inrunChanged {
+			if ids[id] {
+				return true
+			}
+		}
+	}
+	return false
+}
+
+// checkInRunToken, right after the run the write happened in: a dependency
+// token that has moved past the change written during the run means "processed";
+// then the connected main entities must have been delivered after the write.
+func (s *c18Run) checkInRunToken(full bool) {
+	cov := s.covered()
+	for ds, ids := range s.inrunChanged {
+		d := s.m.Live(ds)
+		if d == nil || ds == c18Main {
+			continue
+		}
+		passed := map[string]map[string]bool{ds: {}}
+		for _, v := range d.Versions {
+			if v.Commit == s.inrunCommit && ids[v.ID] && v.Seq < cov[ds] {
+				passed[ds][v.ID] = true
+			}
+		}
+		if len(passed[ds]) == 0 {
+			continue
+		}
+		s.ctx.Out.Stat("inrun_token_passed_checks", 1)
+		req := c18Required(s.m, s.eff, passed, nil, 0)
+		for _, id := range sortedKeys(req) {
+			if s.emittedAfter[id] {
+				continue
+			}
+			w := req[id]
+			s.inrunClass = "dep-token-past-change-written-during-run/" + s.runKind()
+			raw, _ := s.token()
+			s.viol(s.inrunClass, fmt.Sprintf("round %d: %s of dependency dataset %s was written while the %s run was in progress (after batch %d); the run ended with the token of %s at feed position %d, past that change, but main entity %s (path %v via %v) was not delivered after the write",
+				s.round, w.Changed, ds, s.runKind(), s.c.InRun.Hit, ds, cov[ds], id, w.Path, w.Dep.Joins), id, sortedKeys(s.emittedAfter), map[string]any{"witness": w, "token": raw})
+			return
+		}
+	}
+}
+
+// checkInRunEnd, at the token fixpoint: everything connected to what the
+// in-run write changed has been delivered after the write.
+func (s *c18Run) checkInRunEnd() {
+	if !s.inrunDone {
+		return
+	}
+	req := s.inRunRequired()
+	redelivery := 0
+	for _, id := range sortedKeys(req) {
+		s.ctx.Out.Stat("inrun_required_checked", 1)
+		if s.emittedPre[id] {
+			redelivery++
+		}
+		if s.emittedAfter[id] {
+			continue
+		}
+		w := req[id]
+		class := "missed-after-write-during-run/" + s.runKind()
+		if s.inrunClass != "" {
+			class = s.inrunClass
+		} else if len(w.Path) > 1 {
+			if c3 := s.viaC03(w); c3 != "" {
+				class = "via-C03-incoming"
+				s.ctx.Out.Stat("via_C03:"+c3, 1)
+			}
+		}
+		raw, _ := s.token()
+		s.viol(class, fmt.Sprintf("round %d: %s of dataset %s was written while the %s run was in progress (after batch %d); main entity %s (path %v) was never delivered after that write although the tokens stopped moving",
+			s.round, w.Changed, s.c.InRun.Write.DS, s.runKind(), s.c.InRun.Hit, id, w.Path), id, sortedKeys(s.emittedAfter), map[string]any{"witness": w, "token": raw, "delivered_before_write": s.emittedPre[id]})
+	}
+	if redelivery > 0 {
+		s.nontrivial = true
+		s.ctx.Out.Stat("inrun_redelivery_demanded", int64(redelivery))
+		s.ctx.Out.Stat("inrun_cases_with_redelivery:"+s.runKind(), 1)
+	}
+}
+
+func sortedKeys[V any](m map[string]V) []string {
+	r := make([]string, 0, len(m))
+	for k := range m {
+		r = append(r, k)
+	}
+	sort.Strings(r)
+	return r
 }
 
 // sameDatasetDeps: how many effective dependencies start from dataset ds.
@@ -765,6 +994,15 @@ func (s *c18Run) execute() {
 			return
 		}
 		s.ctx.Out.Stat("rounds", 1)
+		s.checkInRunEnd()
+		for ds, ids := range s.inrunChanged {
+			for id := range ids {
+				if changed[ds] == nil {
+					changed[ds] = map[string]bool{}
+				}
+				changed[ds][id] = true
+			}
+		}
 		// required set of this round
 		req := map[string]c18Witness{}
 		if k > 0 {
@@ -780,6 +1018,9 @@ func (s *c18Run) execute() {
 				for _, v := range d.Versions {
 					if c.LatestOnly && v.Seq != lastSeq[v.ID] {
 						continue // a latest-only reader is triggered by the newest version only
+					}
+					if s.inrunCommit != 0 && v.Commit == s.inrunCommit {
+						continue // "previous run" is not defined for a change written during a run: current links only
 					}
 					if v.Commit > prevCommit && ids[v.ID] && v.Seq < s.cov0[ds] {
 						prevEligible[ds][v.ID] = true
@@ -829,6 +1070,12 @@ func (s *c18Run) execute() {
 				}
 			} else if s.badAdvance[w.Dep.Dataset] != "" {
 				class = s.badAdvance[w.Dep.Dataset]
+			} else if s.onInRunPath(w) {
+				// the connection runs over an entity written while a run was in progress: same failure as the in-run check reports
+				class = "missed-after-write-during-run/" + s.runKind()
+				if s.inrunClass != "" {
+					class = s.inrunClass
+				}
 			} else if c3 := s.viaC03(w); c3 != "" {
 				class = "via-C03-incoming"
 				s.ctx.Out.Stat("via_C03:"+c3, 1)
@@ -899,7 +1146,9 @@ func keysOf(m map[string][]obs.Rec) []string {
 
 func c18ID(pool string, i int) string { return fmt.Sprintf("%s%s%d", gen.NsA, pool, i) }
 
-func c18Gen(r *rand.Rand) C18Case {
+// c18Gen returns a history and, per round, one spare write (same generators, not part of the history) that a
+// derived case performs while the first run after that round's writes is in progress.
+func c18Gen(r *rand.Rand) (C18Case, []C18Write) {
 	c := C18Case{Batch: []int{1, 1, 1, 2, 2, 3, 4, 5}[r.Intn(8)], LatestOnly: r.Intn(4) == 0, FirstRun: []string{"full", "incr"}[r.Intn(2)]}
 	tags := map[string]bool{}
 	pools := map[string]string{c18Main: "m", "dep": "d", "dep2": "c", "l1": "a", "l2": "b"}
@@ -1059,6 +1308,35 @@ func c18Gen(r *rand.Rand) C18Case {
 		cur[key] = e
 		return e
 	}
+	var spares []C18Write
+	mkSpare := func() {
+		savedCur := map[string]model.Ent{}
+		for k, v := range cur {
+			savedCur[k] = v
+		}
+		savedTags := map[string]bool{}
+		for k := range tags {
+			savedTags[k] = true
+		}
+		var ds string
+		for {
+			ds = c.Datasets[r.Intn(len(c.Datasets))]
+			if ds != c18Main || r.Intn(6) == 0 {
+				break
+			}
+		}
+		var ents []model.Ent
+		for i, n := 0, 1+r.Intn(2); i < n; i++ {
+			ents = append(ents, mkEnt(ds))
+		}
+		spares = append(spares, C18Write{DS: ds, Ents: ents})
+		cur = savedCur
+		for k := range tags {
+			if !savedTags[k] {
+				delete(tags, k)
+			}
+		}
+	}
 	// datasets left empty at the first run
 	empty := map[string]bool{}
 	if r.Intn(4) == 0 {
@@ -1113,6 +1391,7 @@ func c18Gen(r *rand.Rand) C18Case {
 		r0 = append(r0, C18Write{DS: "dep", Ents: []model.Ent{e}})
 	}
 	c.Rounds = append(c.Rounds, r0)
+	mkSpare()
 	nr := 2 + r.Intn(3)
 	for k := 0; k < nr; k++ {
 		var rd []C18Write
@@ -1154,6 +1433,7 @@ func c18Gen(r *rand.Rand) C18Case {
 			rd = append(rd, C18Write{DS: ds, Ents: ents})
 		}
 		c.Rounds = append(c.Rounds, rd)
+		mkSpare()
 	}
 	if c.LatestOnly {
 		tags["latestOnly"] = true
@@ -1162,7 +1442,7 @@ func c18Gen(r *rand.Rand) C18Case {
 		c.Tags = append(c.Tags, t)
 	}
 	sort.Strings(c.Tags)
-	return c
+	return c, spares
 }
 
 // ---------- entry point
@@ -1188,12 +1468,13 @@ func c18Multi(ctx *Ctx) error {
 		maxFaults = 1 << 30
 	}
 	for n := 0; n < ctx.Cases; n++ {
-		c := c18Gen(r)
-		reqs0, ok := c18RunCase(ctx, c)
+		c, spares := c18Gen(r)
+		reqs0, hits0, ok := c18RunCase(ctx, c)
 		ctx.Out.Stat("histories", 1)
 		if !ok {
 			continue
 		}
+		c18InRunCases(ctx, c, spares, hits0, rand.New(rand.NewSource(ctx.Seed*104729+int64(n))))
 		// fault enumeration on top of the history: the sink refuses the k-th request of the first
 		// catch-up run of the round that made most requests (measured by the fault-free execution)
 		best, bestN := 0, 1
@@ -1220,12 +1501,72 @@ func c18Multi(ctx *Ctx) error {
 	return nil
 }
 
-// c18RunCase executes one case; returns the sink requests of the first run of every round and whether the case ended without violation.
-func c18RunCase(ctx *Ctx, c C18Case) (map[int]int, bool) {
+// c18InRunCases derives, from a history that ran clean, the cases with a write DURING a run: the spare write of a
+// round is performed right after a PRNG-chosen batch of the first run after that round's writes - the first run of
+// the job (explicit or implicit full sync), an incremental run, an explicit fullsync run later in the history.
+func c18InRunCases(ctx *Ctx, c C18Case, spares []C18Write, hits0 map[int]int, fr *rand.Rand) {
+	for _, t := range c.Tags {
+		if t == "through-main" {
+			return // a path THROUGH the main dataset: main is no dependency there, a link written into it during a run re-connects nothing the statement covers
+		}
+	}
+	mk := func(round int, full bool, hit int) {
+		fc := c
+		fc.InRun = &C18InRun{Round: round, Full: full, Hit: hit, Write: spares[round]}
+		kind := "incremental"
+		switch {
+		case round == 0:
+			kind = "first-run"
+		case full:
+			kind = "explicit-fullsync"
+		}
+		fc.Tags = append(append([]string{}, c.Tags...), "write-during-run", "write-during-run:"+kind)
+		c18RunCase(ctx, fc)
+	}
+	thorough := ctx.Tier == "thorough"
+	// first run of the job
+	if hits0[0] >= 1 && (thorough || fr.Intn(3) != 0) {
+		mk(0, false, 1+fr.Intn(hits0[0]))
+	}
+	// incremental runs
+	var incr []int
+	for k := 1; k < len(c.Rounds); k++ {
+		if hits0[k] >= 1 {
+			incr = append(incr, k)
+		}
+	}
+	fr.Shuffle(len(incr), func(i, j int) { incr[i], incr[j] = incr[j], incr[i] })
+	for i, k := range incr {
+		if !thorough && i >= 2 {
+			break
+		}
+		mk(k, false, 1+fr.Intn(hits0[k]))
+	}
+	// an explicit fullsync run later in the history: batches = main feed / batch size (upper bound from the history)
+	if len(c.Rounds) > 1 && (thorough || fr.Intn(2) == 0) {
+		k := 1 + fr.Intn(len(c.Rounds)-1)
+		nMain := 0
+		for _, rd := range c.Rounds[:k+1] {
+			for _, w := range rd {
+				if w.DS == c18Main {
+					nMain += len(w.Ents)
+				}
+			}
+		}
+		b := (nMain + c.Batch - 1) / c.Batch
+		if b < 1 {
+			b = 1
+		}
+		mk(k, true, 1+fr.Intn(b))
+	}
+}
+
+// c18RunCase executes one case; returns the sink requests and the pipeline hook hits of the first run of every round and whether the case ended without violation.
+func c18RunCase(ctx *Ctx, c C18Case) (map[int]int, map[int]int, bool) {
 	id := outHash(c)
 	ctx.Out.Case(id, ctx.Seed, c, false, c.Tags)
 	s := &c18Run{ctx: ctx, id: id, c: c, m: model.New(), eff: c18Effective(c.Deps), seen: map[string]bool{},
-		emptyAtFirst: map[string]bool{}, badToken: map[string]bool{}, badAdvance: map[string]string{}, reqs0: map[int]int{}}
+		emptyAtFirst: map[string]bool{}, badToken: map[string]bool{}, badAdvance: map[string]string{}, reqs0: map[int]int{}, hits0: map[int]int{}}
 	for _, d := range c.Deps {
 		if d.Via != "json" {
 			s.hasTransform = true
@@ -1248,5 +1589,5 @@ func c18RunCase(ctx *Ctx, c C18Case) (map[int]int, bool) {
 		runtime.ReadMemStats(&ms)
 		fmt.Fprintf(os.Stderr, "mem heapInuse=%dMB heapObjects=%d sys=%dMB goroutines=%d\n", ms.HeapInuse>>20, ms.HeapObjects, ms.Sys>>20, runtime.NumGoroutine())
 	}
-	return s.reqs0, !s.abort && len(s.seen) == 0
+	return s.reqs0, s.hits0, !s.abort && len(s.seen) == 0
 }
